@@ -35,8 +35,9 @@ Print Assumptions C06_keyless_never.
 
 (* Dead stays dead: once every stored entry under an id is expired (in
    particular when there is none), then through EVERY continuation of the history
-   (stores of other sessions, arbitrary resumption requests, renewals, clock ticks,
-   Invalidate, InvalidateExpired, on either cache) that does not store a session
+   (stores of other sessions, arbitrary resumption requests -- also with Invalidate calls
+   landing while the reply is being written --, renewals, clock ticks, Invalidate,
+   InvalidateExpired, on either cache) that does not store a session
    under that id again, every resumption request naming it is refused -- an error,
    and SID_NOT_FOUND exactly when a reply was requested -- and the id is still dead
    afterwards (so no renewal was applied to it). *)
@@ -46,6 +47,19 @@ Theorem C06_dead_stays_dead : forall h st sid,
   forall o, In o (snd (srun st h)) -> q_sid (fst (fst o)) = sid -> refused o.
 Proof. exact dead_run. Qed.
 Print Assumptions C06_dead_stays_dead.
+
+(* Invalidation races with a resumption in flight.  Every cache effect of a
+   resumption (lookup, RenewLease, Store) precedes the reply, whose write can block
+   on the peer for as long as the peer likes; Invalidate calls landing during that
+   write (history event SResumeInv, covered by C06_dead_stays_dead like every other
+   event) therefore act on the state the resumption left, and a session invalidated
+   in that window is dead: nothing re-inserts it, and by C06_dead_stays_dead every
+   later resumption request naming it is refused. *)
+Theorem C06_invalidate_during_reply : forall s now q wc,
+  dead (inv_all (fst (fst (handle_resumption s now q wc))) [(q_sid q, InGlobal); (q_sid q, InCustom)])
+       now (q_sid q).
+Proof. exact invalidate_during_reply. Qed.
+Print Assumptions C06_invalidate_during_reply.
 
 (* the three ways to be dead: unknown, invalidated, expired *)
 Theorem C06_unknown_is_dead : forall c now sid,
